@@ -119,6 +119,68 @@ func expansionSize(n *yaml.Node, memo map[*yaml.Node]float64, onPath map[*yaml.N
 	return total
 }
 
+// mergedSize: the size of what the node graph DECODES to (aliases expanded), where a mapping's merges contribute
+// every mapping of the merge closure once - merged keys are a set, however many paths lead to a source.
+func mergedSize(n *yaml.Node, memo map[*yaml.Node]float64, onPath map[*yaml.Node]bool) float64 {
+	if n == nil {
+		return 0
+	}
+	if onPath[n] {
+		return 1
+	}
+	if v, ok := memo[n]; ok {
+		return v
+	}
+	onPath[n] = true
+	total := 1.0
+	switch n.Kind {
+	case yaml.AliasNode:
+		total += mergedSize(n.Alias, memo, onPath)
+	case yaml.MappingNode:
+		closure, order := map[*yaml.Node]bool{}, []*yaml.Node{}
+		var close func(x *yaml.Node, depth int)
+		close = func(x *yaml.Node, depth int) {
+			if x == nil || closure[x] || depth > 10000 {
+				return
+			}
+			closure[x] = true
+			switch x.Kind {
+			case yaml.AliasNode:
+				close(x.Alias, depth+1)
+			case yaml.SequenceNode:
+				for _, c := range x.Content {
+					close(c, depth+1)
+				}
+			case yaml.MappingNode:
+				order = append(order, x)
+				for i := 0; i+1 < len(x.Content); i += 2 {
+					if x.Content[i].Tag == "!!merge" {
+						close(x.Content[i+1], depth+1)
+					}
+				}
+			}
+		}
+		close(n, 0)
+		for _, m := range order {
+			for i := 0; i+1 < len(m.Content) && total <= 1e9; i += 2 {
+				if m.Content[i].Tag != "!!merge" {
+					total += mergedSize(m.Content[i], memo, onPath) + mergedSize(m.Content[i+1], memo, onPath)
+				}
+			}
+		}
+	default:
+		for _, c := range n.Content {
+			total += mergedSize(c, memo, onPath)
+			if total > 1e9 {
+				break
+			}
+		}
+	}
+	delete(onPath, n)
+	memo[n] = total
+	return total
+}
+
 var avExotic bool
 
 // inputSteps extracts the input step sequence (as AV) from the raw bytes with plain yaml.v3 nodes.
@@ -127,8 +189,14 @@ func inputSteps(src []byte) (steps any, ok bool, nonfinite bool, tooBig bool) {
 	if err := yaml.Unmarshal(src, &n); err != nil {
 		return nil, false, false, false
 	}
-	if expansionSize(&n, map[*yaml.Node]float64{}, map[*yaml.Node]bool{}) > 2e5 {
+	if mergedSize(&n, map[*yaml.Node]float64{}, map[*yaml.Node]bool{}) > 2e5 {
 		return nil, false, false, true
+	}
+	if expansionSize(&n, map[*yaml.Node]float64{}, map[*yaml.Node]bool{}) > 2e5 {
+		// the DECODED document is small, only the merge TREE is large (the same few mappings merged along many
+		// paths): in scope, but the harness's own walker follows every path - the step sequence is not read,
+		// totality, time and marshalling are still judged
+		return nil, false, nodeHasNonFinite(&n, map[*yaml.Node]bool{}), false
 	}
 	avExotic = false
 	a, err := avFromNode(&n, 0)
@@ -617,6 +685,37 @@ var c13Seeds = []string{
 }
 
 var _ = math.Inf
+
+func init() {
+	// malformed command steps that carry rich, ORDER-BEARING content in the fields decoded before the bad one: the
+	// fallback keeps the step as written, whatever the attempt to decode it as a command step did on the way
+	rich := "    plugins:\n      - docker#v1: {volumes: [{z: 1, a: 2}, {m: [{y: 1, b: 2}]}], zeta: {q: 1, b: 2}}\n      - ./local: [{k: 1, c: 2}]\n" +
+		"    env: {ZED: z, ALPHA: a}\n    agents: {queue: q, arch: [{z: 1, a: 2}]}\n"
+	for _, bad := range []string{"    matrix: 5\n", "    env2: x\n    matrix: {setup: {a: 5}}\n", "    cache: [1]\n", "    signature: 7\n", "    label: [a]\n", "    key: {a: b}\n",
+		"    command: {a: b}\n", "    commands: {a: b}\n"} {
+		body := rich + bad
+		if !strings.Contains(bad, "command") {
+			body = "    command: make\n" + body
+		}
+		indent := func(t, pad string) string {
+			lines := strings.Split(strings.TrimSuffix(t, "\n"), "\n")
+			return pad + strings.Join(lines, "\n"+pad) + "\n"
+		}
+		c13Seeds = append(c13Seeds, "steps:\n  -\n"+body, "steps:\n  - wait\n  -\n"+body+"  - group: g\n    steps:\n      -\n"+indent(body, "    ")+"      - wait\n")
+	}
+	c13Seeds = append(c13Seeds, "steps:\n  - command: make\n    plugins:\n      - a#v1: {l: [{z: 1, a: 2}]}\n      - [bad]\n",
+		"steps:\n  - command: make\n    plugins: {a#v1: {l: [{z: 1, a: 2}]}, b#v1: 5, c#v1: {l: [{y: 1, b: 2}]}}\n    env: [x]\n")
+	// layered merges: each layer merges the two fragments of the layer below - 2^depth merge paths, a handful of keys
+	for _, depth := range []int{6, 24, 40} {
+		var sb strings.Builder
+		sb.WriteString("defs:\n  l0: &l0 {k0: 1}\n  r0: &r0 {j0: 1}\n")
+		for i := 1; i <= depth; i++ {
+			fmt.Fprintf(&sb, "  l%d: &l%d {<<: [*l%d, *r%d], k%d: 1}\n  r%d: &r%d {<<: [*l%d, *r%d], j%d: 1}\n", i, i, i-1, i-1, i, i, i, i-1, i-1, i)
+		}
+		fmt.Fprintf(&sb, "steps:\n  - <<: *l%d\n    command: make\n  - wait\n", depth)
+		c13Seeds = append(c13Seeds, sb.String())
+	}
+}
 
 // hasWSMultiline: some string of the result is multi-line and begins with whitespace
 // (the class yaml.v3's emitter cannot round-trip; see finding F07).
